@@ -50,6 +50,7 @@ type Scenario struct {
 	Paths     []PathInfo `json:"paths"`
 	Refs      []Ref      `json:"refs"`
 	BigHints  int        `json:"big_hints,omitempty"` // size of an unused ImportNames table
+	Canonical string     `json:"canonical,omitempty"` // File.CanonicalPath (an annotation only: never a second local path)
 }
 
 // Knobs steer the generator towards the sub-domain a check is about.
@@ -226,6 +227,16 @@ func Generate(r *rand.Rand, k Knobs) *Scenario {
 				// compete with an earlier path's expected name
 				a = s.Paths[r.Intn(i)].TrueName
 			}
+			if r.Intn(4) == 0 {
+				// the alias a human would write: the last path element (the real name may well differ)
+				last := strings.TrimSuffix(pi.Path, "/")
+				if j := strings.LastIndex(last, "/"); j >= 0 {
+					last = last[j+1:]
+				}
+				if token.IsIdentifier(last) {
+					a = last
+				}
+			}
 			s.Hints = append(s.Hints, Hint{Op: "ImportAlias", Path: pi.Path, Name: a})
 		case r.Intn(8) == 0:
 			m := map[string]string{pi.Path: pi.TrueName}
@@ -259,6 +270,13 @@ func Generate(r *rand.Rand, k Knobs) *Scenario {
 			at := r.Intn(len(s.Hints) + 1)
 			pre := []string{"#include <a.h>", "#include <b.h>\nvoid f() {}\n", "// #cgo LDFLAGS: -lm"}[r.Intn(3)]
 			s.Hints = append(s.Hints[:at], append([]Hint{{Op: "CgoPreamble", Name: pre}}, s.Hints[at:]...)...)
+		}
+	}
+	// a canonical import path annotation, often one of the paths the body refers to
+	if len(s.Paths) > 0 && r.Intn(8) == 0 {
+		s.Canonical = s.Paths[r.Intn(len(s.Paths))].Path
+		if s.Canonical == "C" {
+			s.Canonical = "vanity.io/pkg"
 		}
 	}
 	// references
@@ -347,7 +365,7 @@ func (s *Scenario) AnonSet() map[string]bool {
 
 func (s *Scenario) String() string {
 	var b strings.Builder
-	fmt.Fprintf(&b, "%s(%q,%q) prefix=%q noformat=%v", s.Ctor, s.LocalPath, s.PkgName, s.Prefix, s.NoFormat)
+	fmt.Fprintf(&b, "%s(%q,%q) prefix=%q noformat=%v canonical=%q", s.Ctor, s.LocalPath, s.PkgName, s.Prefix, s.NoFormat, s.Canonical)
 	for _, h := range s.Hints {
 		if h.Op == "ImportNames" {
 			fmt.Fprintf(&b, " ImportNames(%v)", h.Names)
@@ -388,6 +406,7 @@ func (s *Scenario) NewFile() *jen.File {
 	}
 	f.PackagePrefix = s.Prefix
 	f.NoFormat = s.NoFormat
+	f.CanonicalPath = s.Canonical
 	if s.BigHints > 0 {
 		m := map[string]string{}
 		for i := 0; i < s.BigHints; i++ {
